@@ -1446,6 +1446,9 @@ callf:
 				return lerr
 			}
 			fun, args = extractMarkTailRec(r)
+			// The frame is re-entered for the next turn: it starts
+			// non-terminal, like a freshly pushed frame.  See funCall.
+			top.Terminal = false
 			goto callf
 		}
 		return r
@@ -1590,6 +1593,15 @@ callf:
 				return lerr
 			}
 			fun, args = extractMarkTailRec(r)
+			// The frame is re-entered for the next turn, so it starts
+			// non-terminal, like a freshly pushed frame.  The previous turn
+			// left Terminal set (its last body form ran in tail position);
+			// keeping it made every NON-tail call in the next turn's body
+			// look like a tail call to TerminalFID, so a call to a function
+			// lower on the chain -- (defun f (n) (g 0) (if ... (f (- n 1))))
+			// called from g -- was turned into a tail-recursion mark whose
+			// value the body loop discards: the call silently never ran.
+			top.Terminal = false
 			goto callf
 		}
 	}
